@@ -161,10 +161,26 @@ def table_worker(task):
                     dt = q(step, u3)
                     for i in range(12):
                         n += 1
+                        # (the operand is looked at in other units first, as a
+                        # display would do)
+                        for u4 in (ulist[0], ulist[-1]):
+                            if t.as_unit(u4).si != t.si:
+                                bad.append(("as_unit-of-a-running-total",
+                                            name, u, u4, i, t.as_unit(u4).si,
+                                            t.si))
                         t2 = t + dt if i % 4 != 3 else t - dt
                         want = t.si + dt.si if i % 4 != 3 else t.si - dt.si
                         twin = q(t.si, q._baseunit).as_unit(u)
                         tw2 = twin + dt if i % 4 != 3 else twin - dt
+                        derived = [t2, -t2, abs(t2), t2 * 2, t2 / 2]
+                        wants = [want, -want, abs(want), want * 2, want / 2]
+                        for dq, dw in zip(derived, wants):
+                            for u4 in (ulist[0], ulist[-1]):
+                                got4 = dq.as_unit(u4)
+                                if got4.si != dw or got4.unit != u4:
+                                    bad.append((
+                                        "as_unit-of-a-derived-quantity", name,
+                                        u, u4, i, got4.si, dw))
                         if t2.si != want or tw2.si != want or t2.unit != u:
                             bad.append(("running-total", name, u, (step, u3),
                                         i, t2.si, want, tw2.si))
